@@ -41,6 +41,8 @@ type Exec struct {
 	iterStart         map[*ssa.BasicBlock]*State
 	auxTypes          map[string]types.Type
 	nameAs            string
+	retSite           string
+	retLabels         map[ssa.Instruction]string
 	appendMode        int
 	memo              map[string]*memoEntry
 	groups            map[string][][]Term
